@@ -121,6 +121,24 @@ func zzFixtureRows(cfg *zzFixtureCfg, h float64) float64 { return h / cfg.Gap }
 
 func zzFixtureElement(name, text string) string { return "<" + name + ">" + text + "</" + name + ">" }
 `, "zzFixtureElement"},
+	{"R184", "pkg/clock/zz_fixture_r184.go", `package clock
+
+import (
+	"sort"
+	"time"
+)
+
+func zzFixtureDue(ts afters, t time.Time) int {
+	return sort.Search(len(ts), func(i int) bool { return ts[i].After(t) })
+}
+`, "zzFixtureDue"},
+	{"R190", "pkg/logic/zz_fixture_r190.go", `package logic
+
+func zzFixtureSeen(seen map[string]bool, a, b string) bool {
+	k := a + "_" + b
+	return seen[k]
+}
+`, "zzFixtureSeen"},
 }
 
 // checkFixtures runs the zero-expected rules among ids on the fixture program and returns one obligation per rule.
